@@ -234,23 +234,37 @@ func (s *sim) start(host string) {
 }
 
 func simSite(stack []byte) string {
-	// first frame inside internal/app or internal/mysql below the panic
+	// the first mysync frame below the panic; a frame of internal/app (the caller that passed the bad value) is preferred
+	// to the frame of internal/mysql where the nil receiver is finally dereferenced
 	lines := strings.Split(string(stack), "\n")
+	clean := func(f string) string {
+		f = strings.TrimSpace(f)
+		if k := strings.Index(f, "/internal/"); k >= 0 {
+			f = f[k+1:]
+		}
+		if k := strings.Index(f, " "); k >= 0 {
+			f = f[:k]
+		}
+		return f
+	}
+	first := ""
 	for i, l := range lines {
 		if strings.Contains(l, "panic(") && i+2 < len(lines) {
 			for j := i + 2; j < len(lines); j++ {
-				if strings.Contains(lines[j], "/internal/") && strings.Contains(lines[j], ".go:") {
-					f := strings.TrimSpace(lines[j])
-					if k := strings.Index(f, "/internal/"); k >= 0 {
-						f = f[k+1:]
+				if strings.Contains(lines[j], "/internal/") && strings.Contains(lines[j], ".go:") && !strings.Contains(lines[j], "zz_verif_") {
+					if first == "" {
+						first = clean(lines[j])
 					}
-					if k := strings.Index(f, " "); k >= 0 {
-						f = f[:k]
+					if strings.Contains(lines[j], "/internal/app/") {
+						return clean(lines[j])
 					}
-					return f
 				}
 			}
+			break
 		}
+	}
+	if first != "" {
+		return first
 	}
 	return "?"
 }
@@ -458,6 +472,12 @@ func (s *sim) request() {
 	if s.cfg.Request == "" {
 		return
 	}
+	if s.cfg.SlowHost != "" && s.cfg.Request == "to:"+s.cfg.SlowHost {
+		// ask the lagging replica to take over while it really is behind: in the middle of its replication cycle
+		for i := 0; i < 40 && s.W.ReplRound()%8 != 4; i++ {
+			s.runFor(500 * time.Millisecond)
+		}
+	}
 	sw := Switchover{InitiatedBy: "sim", InitiatedAt: time.Now(), Cause: CauseManual}
 	if strings.HasPrefix(s.cfg.Request, "to:") {
 		sw.To = s.cfg.Request[3:]
@@ -479,6 +499,17 @@ func (s *sim) chaos() {
 		return
 	case "ghost_master":
 		_ = s.admin.Set(pathMasterNode, "ghost")
+	case "ghost_master_and_replicas_far_behind":
+		// the lag checker of every replica compares a lag beyond resetup_host_lag with the recorded master's state
+		_ = s.admin.Set(pathMasterNode, "ghost")
+		s.W.Mu.Lock()
+		for _, n := range s.W.Nodes {
+			if n.Repl != nil {
+				l := float64(200000)
+				n.Repl.Lag = &l
+			}
+		}
+		s.W.Mu.Unlock()
 	case "active_ghost":
 		_ = s.admin.Set(pathActiveNodes, []string{s.hosts[0], "ghost"})
 	case "active_empty":
@@ -556,7 +587,7 @@ func (s *sim) chaos() {
 	s.W.Env("chaos", "", s.cfg.Chaos)
 }
 
-var simChaos = []string{"remove_then_readd_host", "move_host_to_cascade_and_back", "ghost_master", "active_ghost", "active_empty", "remove_host", "remove_master_host", "add_host_no_server", "cascade_ghost",
+var simChaos = []string{"ghost_master_and_replicas_far_behind", "remove_then_readd_host", "move_host_to_cascade_and_back", "ghost_master", "active_ghost", "active_empty", "remove_host", "remove_master_host", "add_host_no_server", "cascade_ghost",
 	"cascade_self", "garbage_switch", "garbage_master", "garbage_active", "garbage_maintenance", "garbage_health", "garbage_last_switch",
 	"switch_to_ghost", "switch_from_ghost", "all_sql_fail", "all_sql_hang", "dcs_down", "replica_not_replica", "master_is_replica_of_ghost"}
 
@@ -693,8 +724,17 @@ func simBubble(t *testing.T, cfg simCfg, idx int, dir string, lineOut *map[strin
 			}
 			if s.simCall(by, "sql:"+host+":"+op) {
 				s.W.Mu.Lock()
-				s.W.DeadProcs[by] = true
 				s.crashState = s.crashStateLocked()
+				if s.cfg.Successor == "dcs-loss" {
+					// the manager does not die: it loses the coordination service and goes on with its servers reachable
+					if p := s.procs[by]; p != nil {
+						p.d.Connected = false
+					}
+					s.W.Mu.Unlock()
+					go s.dcsLoss(by)
+					return
+				}
+				s.W.DeadProcs[by] = true
 				s.W.Mu.Unlock()
 				go s.kill(by)
 			}
@@ -719,8 +759,15 @@ func simBubble(t *testing.T, cfg simCfg, idx int, dir string, lineOut *map[strin
 				}
 			}
 			if op != "acquire" && s.simCall(by, "dcs:"+op+":"+path) {
-				s.W.DeadProcs[by] = true
 				s.crashState = s.crashStateLocked()
+				if s.cfg.Successor == "dcs-loss" {
+					if p := s.procs[by]; p != nil {
+						p.d.Connected = false
+					}
+					go s.dcsLoss(by)
+					return
+				}
+				s.W.DeadProcs[by] = true
 				if p := s.procs[by]; p != nil {
 					p.d.Connected = false
 				}
@@ -751,10 +798,13 @@ func simBubble(t *testing.T, cfg simCfg, idx int, dir string, lineOut *map[strin
 				s.reap(s.crashed)
 				s.start(s.crashed)
 			}
+			if cfg.Successor == "dcs-loss" {
+				s.runFor(100 * time.Second)
+			}
 		}
 		// healing: long enough for recovery, repair, catch-up
 		s.runFor(6 * time.Minute)
-		if s.crashed != "" && cfg.Successor != "same" {
+		if s.crashed != "" && cfg.Successor == "other" {
 			s.reap(s.crashed)
 			s.start(s.crashed)
 			s.runFor(2 * time.Minute)
@@ -829,6 +879,17 @@ func simBubble(t *testing.T, cfg simCfg, idx int, dir string, lineOut *map[strin
 			"samples": s.compress(), "keys": keys, "recovery": rec, "panics": panics, "foreign_acts": acts,
 			"crashed": s.crashed, "crash_call": s.crashCall, "crash_state": s.crashState, "health": health, "request_calls": s.requestCalls(), "call_log": s.callLog, "conns": conns, "env": s.envLog()}
 	})
+}
+
+// dcsLoss: the process keeps running without the coordination service for 90 s (its session expires after the
+// session time-out, so a successor can take over while it is still busy)
+func (s *sim) dcsLoss(host string) {
+	p := s.procs[host]
+	s.W.Env("dcs_loss", host, "")
+	s.dcsCut(p, true)
+	time.Sleep(90 * time.Second)
+	s.dcsCut(p, false)
+	s.W.Env("dcs_back", host, "")
 }
 
 // crashStateLocked describes the world at the moment the manager dies (world lock held): is there a writable HA node
@@ -1078,9 +1139,9 @@ func TestVerifC07(t *testing.T) {
 			}
 		}
 		for n, i := range pts {
-			succs := []string{"same", "other"}
+			succs := []string{"same", "other", "dcs-loss"}
 			if !verifh.Thorough() {
-				succs = succs[n%2 : n%2+1]
+				succs = succs[n%3 : n%3+1]
 			}
 			for _, succ := range succs {
 				c2 := c
